@@ -346,7 +346,7 @@ def decode_gzip(short, vals, meta):
     if short.startswith("sb_dead_after_abort"):
         gz = short.endswith("_gz")
         return {"kind": "streaming", "method": "GET", "accept_encoding": "gzip" if gz else None, "chunk_size": 4,
-                "ops": [{"op": "write", "data": [1]}, {"op": "abort"}, {"op": "write", "data": [1]}, {"op": "flush"}]}
+                "ops": ([] if gz else [{"op": "write", "data": [1]}]) + [{"op": "abort"}, {"op": "write", "data": [1]}, {"op": "flush"}]}
     return None
 
 
@@ -354,36 +354,58 @@ CH_OPS = {0: "write", 1: "flush", 2: "poll", 3: "abort", 4: "write_all", 5: "nop
 
 
 def decode_chunker(short, vals, meta):
-    """chunker_*: N_OPS(4) x (kind:u8 len:u8 wk:u8) | data:[u8;20] | N_SCHED(6) x (n:u8 wk:u8) [| at:usize]"""
-    import re
-    m = re.search(r"cap(\d)", short)
+    """prod_*/cons_*/rdrop_*: l0:usize l1:usize q0:[u8;3] q1:[u8;3] wb:[u8;3] data:[u8;8] w1:u8 w2:u8.
+    The pre-state is turned into a history that reaches it through the public API; then the
+    operations of the step follow."""
+    short = short.split("::")[-1]
+    m = meta.get(short)
     if not m:
         return None
-    cap = int(m.group(1))
     r = Reader(vals)
-    ops_raw = [(r.u8(), r.u8(), r.u8()) for _ in range(4)]
-    data = read_array(r, 20)
-    sched = [(r.u8(), r.u8()) for _ in range(6)]
-    drop_at = None
-    if "body_drop" in short:
-        drop_at = r.usize()
+    l = [r.usize(), r.usize()]
+    q = [read_array(r, 3), read_array(r, 3)]
+    wb = read_array(r, 3)
+    data = read_array(r, 8)
+    wk = [r.u8(), r.u8()]
+    pre = m["pre"]
+    cap = pre["cap"]
     ops = []
-    off = 0
-    for i, (kind, ln, wk) in enumerate(ops_raw):
-        if drop_at is not None and drop_at == i:
+    if pre["state"] == "ok":
+        if pre["waker"]:
+            ops.append({"op": "poll", "n": 1, "waker": 0})
+        for i in range(pre["nq"]):
+            ops.append({"op": "write_all", "data": q[i][:max(1, min(l[i], cap, 3))]})
+            ops.append({"op": "flush"})
+    elif pre["state"] == "err":
+        ops.append({"op": "abort"})
+    if pre["buf"] != 255:
+        ops.append({"op": "write", "data": wb[:pre["buf"]]})
+    if pre["state"] == "fused":
+        if m["family"] == "prod":
             ops.append({"op": "drop_body"})
-        name = CH_OPS.get(kind, "nop")
-        if name in ("write", "write_all"):
-            if off + ln <= 20:
-                ops.append({"op": name, "data": data[off:off + ln]})
+        else:
+            ops += [{"op": "drop_writer"}, {"op": "poll", "n": 1, "waker": 0}]
+    if pre["state"] == "ok" and pre["wd"]:
+        ops.append({"op": "drop_writer"})
+    if m["family"] == "prod":
+        off = 0
+        names = {"W": "write", "A": "write_all", "F": "flush", "X": "abort", "D": "drop_writer"}
+        for kind, ln in m["ops"]:
+            if kind in "WA":
+                ops.append({"op": names[kind], "data": data[off:off + ln]})
                 off += ln
-        elif name == "poll":
-            ops.append({"op": "poll", "n": 1, "waker": wk})
-        elif name in ("flush", "abort"):
-            ops.append({"op": name})
-    ops.append({"op": "drop_writer"})
+            else:
+                ops.append({"op": names[kind]})
+    elif m["family"] == "cons":
+        for k in range(m["npolls"]):
+            ops.append({"op": "poll", "n": 1, "waker": wk[0] if k == 0 else wk[1]})
+        if pre["state"] == "ok" and not pre["wd"]:
+            # the writer is alive: it may still add data (exposes a premature upper bound / end)
+            ops.append({"op": "write_all", "data": [9, 9, 9]})
+    else:
+        ops.append({"op": "drop_body"})
     return {"kind": "streaming", "method": "GET", "accept_encoding": None, "chunk_size": cap, "ops": ops,
-            "schedule": [{"polls": n, "waker": wk} for n, wk in sched], "final_polls": 16}
+            "drain_on_flush": False, "final_polls": 16}
 
 
 def decode_dir(short, vals, meta):
